@@ -869,7 +869,8 @@ class Gen:
         for c, rec in self.pending_canaries:
             if trait_impl:
                 # a trait impl cannot hold extra methods: emit the canary as a free function (Self -> implementing type)
-                if re.search(r"\(\s*&?\s*(mut\s+)?self\b", c):
+                if re.search(r"\(\s*&?\s*(mut\s+)?self\b", c) or header.startswith("impl <"):
+                    # methods with a receiver / generic trait impls cannot be copied out of the impl: no canary
                     rec["canary"] = None
                     continue
                 ty = header.split(" for ", 1)[1].split(" where")[0].strip()
@@ -925,6 +926,36 @@ class Gen:
         for kind, arg, lines in d.subs:
             if kind == "closure":
                 text = self.closure_contract(text, name, arg, "\n".join(lines), log)
+            if kind == "stmtleaf":
+                # R8s: the initialiser of ONE let statement becomes a call to a contract-only (external_body) function
+                m = re.match(r"`(.*?)`\s*=>\s*`(.*?)`\s*(?:;\s*(.*))?$", arg)
+                if not m:
+                    raise WbxError(f"bad stmtleaf directive: {arg}")
+                anchor, call, reason = m.group(1), m.group(2), m.group(3) or ""
+                hits = find_tokens(text, anchor, "stmtleaf")
+                if len(hits) != 1:
+                    raise WbxError(f"lost anchor: statement leaf `{anchor}` occurs {len(hits)}x in fn {name}")
+                st = hits[0][0]
+                tk = lex(text)
+                depth = 0
+                eq = None
+                end = None
+                for t in tk:
+                    if t.s < st or t.kind != "punct":
+                        continue
+                    if t.text in OPEN:
+                        depth += 1
+                    elif t.text in CLOSE:
+                        depth -= 1
+                    elif t.text == "=" and depth == 0 and eq is None:
+                        eq = t.e
+                    elif t.text == ";" and depth == 0:
+                        end = t.s
+                        break
+                if eq is None or end is None:
+                    raise WbxError("stmtleaf: cannot delimit statement")
+                text = text[:eq] + " " + call + text[end:]
+                bump(log, f"R8s statement leaf `{anchor}..` -> `{call}` ({reason})")
         rules = list(GENERIC_RULES)
         if "keepformat" not in opts:
             rules.append(r_format)
@@ -939,7 +970,7 @@ class Gen:
         loops = None
         for kind, arg, lines in d.subs:
             body = "\n".join(lines)
-            if kind in ("sub", "closure", "props"):
+            if kind in ("sub", "closure", "props", "stmtleaf"):
                 continue
             if kind == "attr":
                 fn_attrs.append(arg)
